@@ -115,8 +115,62 @@ Form1(f, Xh) ==
       [] g = 13 -> Call("str", <<ATuple(<<Xh>>)>>)
       [] g = 14 -> ABin("%", S(<<37, 114, 47, 37, 115>>), ATuple(<<Xh, Xh>>))       \* "%r/%s" % (x, x)
 
+(* the forms that CHANGE a receiver: a fresh receiver r (a list, a dict, a set or a string, by the
+   form) is bound by the chunk, the operation is applied with the operand in its hole, and both its
+   result and the receiver afterwards are emitted *)
+RV == AVar("r")
+RList == AList(<<AInt(2), AInt(1), AInt(2)>>)
+RDict == ADict(<<S(<<97>>), AInt(3)>>, <<AInt(1), S(<<98>>)>>)
+RSet == Call("set", <<AList(<<AInt(3), S(<<97>>)>>)>>)
+RStr == S(<<60, 37, 115, 62>>)
+ListMeth == <<"append", "extend", "pop", "remove", "index", "count_">>
+DictMeth == <<"pop", "get", "setdefault", "update", "popitem_">>
+SetMeth == <<"add", "remove", "discard", "update", "union", "intersection", "difference", "issubset">>
+NB3 == 9 + 7 + 10 + 3
+Form3(f, Xh) ==     \* [recv, stmts]
+    IF f <= 9 THEN [recv |-> RList, stmts |->
+        CASE f = 1 -> <<SEmit(MC(RV, "append", <<Xh>>))>>
+          [] f = 2 -> <<SEmit(MC(RV, "extend", <<Xh>>))>>
+          [] f = 3 -> <<SEmit(MC(RV, "pop", <<Xh>>))>>
+          [] f = 4 -> <<SEmit(MC(RV, "remove", <<Xh>>))>>
+          [] f = 5 -> <<SEmit(MC(RV, "insert", <<Xh, AInt(9)>>))>>
+          [] f = 6 -> <<SEmit(MC(RV, "insert", <<AInt(1), Xh>>))>>
+          [] f = 7 -> <<SAssign(TIndex(RV, Xh), AInt(9))>>
+          [] f = 8 -> <<SAug("+", TVar("r"), Xh)>>
+          [] f = 9 -> <<SAug("*", TVar("r"), Xh)>>]
+    ELSE IF f <= 16 THEN [recv |-> RDict, stmts |->
+        CASE f = 10 -> <<SEmit(MC(RV, "pop", <<Xh>>))>>
+          [] f = 11 -> <<SEmit(MC(RV, "pop", <<Xh, AInt(0)>>))>>
+          [] f = 12 -> <<SEmit(MC(RV, "setdefault", <<Xh, AInt(0)>>))>>
+          [] f = 13 -> <<SEmit(MC(RV, "update", <<Xh>>))>>
+          [] f = 14 -> <<SAssign(TIndex(RV, Xh), AInt(9))>>
+          [] f = 15 -> <<SAug("+", TIndex(RV, Xh), AInt(1))>>
+          [] f = 16 -> <<SAug("|", TVar("r"), Xh)>>]
+    ELSE IF f <= 26 THEN [recv |-> RSet, stmts |->
+        CASE f = 17 -> <<SEmit(MC(RV, "add", <<Xh>>))>>
+          [] f = 18 -> <<SEmit(MC(RV, "remove", <<Xh>>))>>
+          [] f = 19 -> <<SEmit(MC(RV, "discard", <<Xh>>))>>
+          [] f = 20 -> <<SEmit(MC(RV, "update", <<Xh>>))>>
+          [] f = 21 -> <<SEmit(MC(RV, "union", <<Xh>>))>>
+          [] f = 22 -> <<SEmit(MC(RV, "intersection", <<Xh>>))>>
+          [] f = 23 -> <<SEmit(MC(RV, "difference", <<Xh>>))>>
+          [] f = 24 -> <<SEmit(MC(RV, "symmetric_difference", <<Xh>>))>>
+          [] f = 25 -> <<SEmit(MC(RV, "issubset", <<Xh>>))>>
+          [] f = 26 -> <<SEmit(ABin("in", Xh, RV))>>]
+    ELSE [recv |-> RStr, stmts |->
+        CASE f = 27 -> <<SAug("+", TVar("r"), Xh)>>
+          [] f = 28 -> <<SAug("*", TVar("r"), Xh)>>
+          [] f = 29 -> <<SAug("%", TVar("r"), Xh)>>]
 (* ---- a case as a chunk *)
 Hole(i, mode, pname) == IF mode = "l" THEN Cat[i].e ELSE AVar(pname)
+Case3(f, a, md, ctx) ==
+    LET mx == IF md[1] = "v" THEN "v" ELSE "l"
+        fm == Form3(f, Hole(a, mx, IF ctx = "mod" THEN Cat[a].n ELSE "p"))
+        body == <<SAssign(TVar("r"), fm.recv)>> \o fm.stmts
+    IN IF ctx = "mod" THEN body \o <<SEmit(RV)>>
+       ELSE <<SDef("fx", <<AParam("p", <<112>>), AParam("q", <<113>>)>>, body \o <<SReturn(RV)>>),
+              SEmit(Call("fx", <<AVar(Cat[a].n), AVar(Cat[a].n)>>))>>
+
 (* module level: the holes are the catalogue's globals or literals *)
 ChunkMod(expr) == <<SEmit(expr)>>
 (* inside a def: the "var" holes are parameters p, q bound to the catalogue's values *)
@@ -153,13 +207,18 @@ Cases1(f, a) ==
         [ci \in 1..Len(CtxSeq) |-> [b |-> 0, md |-> (IF mi = 1 THEN "v" ELSE "l"), ctx |-> CtxSeq[ci],
                                    chunk |-> Case1(f, a, (IF mi = 1 THEN <<"v">> ELSE <<"l">>), CtxSeq[ci])]]], 1)
 
+Cases3(f, a) ==
+    Flatten([mi \in 1..2 |->
+        [ci \in 1..Len(CtxSeq) |-> [b |-> 0, md |-> (IF mi = 1 THEN "v" ELSE "l"), ctx |-> CtxSeq[ci],
+                                   chunk |-> Case3(f, a, (IF mi = 1 THEN <<"v">> ELSE <<"l">>), CtxSeq[ci])]]], 1)
+
 VARIABLES gAr, gF, gA, gDone
-Init == /\ gAr \in {1, 2}
-        /\ gF \in 1..(IF gAr = 2 THEN NB2 ELSE NB1)
+Init == /\ gAr \in {1, 2, 3}
+        /\ gF \in 1..(IF gAr = 2 THEN NB2 ELSE IF gAr = 3 THEN NB3 ELSE NB1)
         /\ gA \in 1..NC
         /\ gDone = FALSE
 Next == /\ ~gDone /\ gDone' = TRUE /\ UNCHANGED <<gAr, gF, gA>>
-        /\ LET cs == IF gAr = 2 THEN Cases2(gF, gA) ELSE Cases1(gF, gA)
+        /\ LET cs == IF gAr = 2 THEN Cases2(gF, gA) ELSE IF gAr = 3 THEN Cases3(gF, gA) ELSE Cases1(gF, gA)
                chunks == <<Prelude>> \o [i \in 1..Len(cs) |-> cs[i].chunk]
                r == RunSession(chunks, 50, FALSE).res
            IN PrintT(<<"CASE", ToJson([ar |-> gAr, f |-> gF, a |-> gA,
